@@ -4,6 +4,8 @@ from core import Case, q, qs, fr, show_list, show_pts, safe
 import gen as G
 
 PID = 'C03'
+FLOAT_KINDS = {'basis', 'basisall', 'basisone', 'bders', 'bdersone', 'kvgen', 'kvnorm', 'linspace'}      # float-mode companion (core.float_companion)
+FLOAT_TOL = 1e-9
 STATS = G.STATS
 TOL_SPAN = F(1, 100000)
 PARTIAL = [
